@@ -259,9 +259,15 @@ def r17_4(ctx, m):
     gs = None
     for s_ in st.body:
         if isinstance(s_, ast.Assign) and isinstance(s_.value, ast.BinOp) and isinstance(s_.value.op, ast.Sub) and isinstance(s_.value.right, ast.BinOp) \
-                and isinstance(s_.value.right.op, ast.Mult) and isinstance(s_.value.right.left, ast.Name):
-            gs = s_.value.right.left.id
-            break
+                and isinstance(s_.value.right.op, ast.Mult):
+            # the factor that is later updated with where(...) is the scaling, the other one the direction
+            names = [x.id for x in (s_.value.right.left, s_.value.right.right) if isinstance(x, ast.Name)]
+            upd = {t_.targets[0].id for t_ in st.body if isinstance(t_, ast.Assign) and isinstance(t_.targets[0], ast.Name) and isinstance(t_.value, ast.Call)
+                   and call_name(t_.value) == "where"}
+            cand = [n_ for n_ in names if n_ in upd]
+            if len(cand) == 1:
+                gs = cand[0]
+                break
     # the reset flag: `X = (i == 5) & (status < -1)`
     resetn, failn = None, None
     for s_ in st.body:
